@@ -11,6 +11,7 @@ import (
 	"fmt"
 	"regexp"
 	"sort"
+	"strconv"
 	"strings"
 	"time"
 
@@ -79,6 +80,7 @@ func (e *c17Env) start() error {
 	cfg := storage.NewConfig()
 	cfg.RetentionService.Enabled = false
 	cfg.PrecreatorConfig.Enabled = false
+	cfg.WriteTimeout = 5 * time.Minute // the default 10 s fires on a loaded machine (shard creation under race)
 	e.Eng = storage.NewEngine(e.Dir, cfg, storage.WithMetaClient(e.MC), storage.WithMetricsDisabled(true))
 	if err := e.Eng.Open(context.Background()); err != nil {
 		return err
@@ -358,6 +360,9 @@ func (e *c17Expr) String() string {
 		if e.re != nil {
 			return fmt.Sprintf("%q %s /%s/", e.Key, e.Cmp, e.Val)
 		}
+		if e.Key == "_value" {
+			return fmt.Sprintf("_value %s %s", e.Cmp, e.Val)
+		}
 		return fmt.Sprintf("%q %s '%s'", e.Key, e.Cmp, e.Val)
 	case "paren":
 		return "(" + e.Kids[0].String() + ")"
@@ -370,10 +375,47 @@ func (e *c17Expr) String() string {
 	}
 }
 
-// Eval is the independent evaluator.
+// Eval is the independent evaluator (expressions without field-value comparisons).
 func (e *c17Expr) Eval(meas string, tags map[string]string, field string) bool {
+	return e.EvalV(meas, tags, field, 2, 0)
+}
+
+// HasValue reports whether the expression compares the field value.
+func (e *c17Expr) HasValue() bool {
+	has := false
+	e.Walk(func(x *c17Expr) {
+		if x.Op == "cmp" && x.Key == "_value" {
+			has = true
+		}
+	})
+	return has
+}
+
+// EvalV evaluates with field-value comparisons ("_value" < <= > >= = != integer literal):
+// mode 0 compares value, mode 1 assumes every value comparison true, mode 2 false.
+func (e *c17Expr) EvalV(meas string, tags map[string]string, field string, mode int, value float64) bool {
 	switch e.Op {
 	case "cmp":
+		if e.Key == "_value" {
+			if mode != 0 {
+				return mode == 1
+			}
+			lit, _ := strconv.ParseFloat(e.Val, 64)
+			switch e.Cmp {
+			case "<":
+				return value < lit
+			case "<=":
+				return value <= lit
+			case ">":
+				return value > lit
+			case ">=":
+				return value >= lit
+			case "=":
+				return value == lit
+			default:
+				return value != lit
+			}
+		}
 		var v string
 		switch e.Key {
 		case "_measurement":
@@ -394,17 +436,17 @@ func (e *c17Expr) Eval(meas string, tags map[string]string, field string) bool {
 			return !e.re.MatchString(v)
 		}
 	case "paren":
-		return e.Kids[0].Eval(meas, tags, field)
+		return e.Kids[0].EvalV(meas, tags, field, mode, value)
 	case "and":
 		for _, k := range e.Kids {
-			if !k.Eval(meas, tags, field) {
+			if !k.EvalV(meas, tags, field, mode, value) {
 				return false
 			}
 		}
 		return true
 	default:
 		for _, k := range e.Kids {
-			if k.Eval(meas, tags, field) {
+			if k.EvalV(meas, tags, field, mode, value) {
 				return true
 			}
 		}
@@ -424,6 +466,19 @@ func (e *c17Expr) Walk(f func(*c17Expr)) {
 func (e *c17Expr) Node(measRef string) *datatypes.Node {
 	switch e.Op {
 	case "cmp":
+		if e.Key == "_value" {
+			n, _ := strconv.ParseInt(e.Val, 10, 64)
+			cmp := map[string]datatypes.Node_Comparison{"<": datatypes.Node_ComparisonLess, "<=": datatypes.Node_ComparisonLessEqual, ">": datatypes.Node_ComparisonGreater,
+				">=": datatypes.Node_ComparisonGreaterEqual, "=": datatypes.Node_ComparisonEqual, "!=": datatypes.Node_ComparisonNotEqual}[e.Cmp]
+			return &datatypes.Node{
+				NodeType: datatypes.Node_TypeComparisonExpression,
+				Value:    &datatypes.Node_Comparison_{Comparison: cmp},
+				Children: []*datatypes.Node{
+					{NodeType: datatypes.Node_TypeFieldRef, Value: &datatypes.Node_FieldRefValue{FieldRefValue: "_value"}},
+					{NodeType: datatypes.Node_TypeLiteral, Value: &datatypes.Node_IntegerValue{IntegerValue: n}},
+				},
+			}
+		}
 		key := e.Key
 		if key == "_measurement" {
 			key = measRef
@@ -511,6 +566,9 @@ func c17GenExpr(rg *vkit.Rand, depth int, keys []string, lit func(key string) st
 	if depth <= 0 || rg.Chance(2, 5) {
 		k := vkit.Pick(rg, keys)
 		op := vkit.Pick(rg, ops)
+		if k == "_value" {
+			return c17Cmp(k, vkit.Pick(rg, []string{"<", "<=", ">", ">=", "=", "!="}), lit(k))
+		}
 		if op == "=~" || op == "!~" {
 			return c17Cmp(k, op, vkit.Pick(rg, c17Regexes))
 		}
@@ -611,10 +669,10 @@ func (e *c17Env) ShardIDs(gs []c17Group) []uint64 {
 }
 
 // SeriesKeys lists series through the "_series" system iterator (the SHOW SERIES path).
-func (e *c17Env) SeriesKeys(auth query.Authorizer, shardIDs []uint64) ([]string, error) {
+func (e *c17Env) SeriesKeys(auth query.Authorizer, shardIDs []uint64, cond influxql.Expr) ([]string, error) {
 	sg := e.TS.ShardGroup(shardIDs)
 	itr, err := sg.CreateIterator(context.Background(), &influxql.Measurement{Database: e.DB, RetentionPolicy: meta.DefaultRetentionPolicyName, SystemIterator: "_series"},
-		query.IteratorOptions{Aux: []influxql.VarRef{{Val: "key"}}, Authorizer: auth, Ascending: true, Ordered: true})
+		query.IteratorOptions{Aux: []influxql.VarRef{{Val: "key"}}, Authorizer: auth, Ascending: true, Ordered: true, Condition: cond})
 	if err != nil || itr == nil {
 		return nil, err
 	}
